@@ -1,0 +1,12 @@
+//go:build verif
+
+package mod
+
+// SetWriteBufferSizeForVerif lets the out-of-package verification harness lower the threshold above
+// which Write flushes its buffer, so that the automatic Sync is reachable with tiny inputs.
+// It returns the previous value.
+func SetWriteBufferSizeForVerif(n int) int {
+	old := writebufferSize
+	writebufferSize = n
+	return old
+}
